@@ -241,9 +241,18 @@ def check_function(run, rule, body, rep):
                         d = lin_sub(lin(end), lin(start))
                         lens, rest = length_atoms(d)
                         if not lens and not rest:
-                            nreads = len({off2 for (E2, B2, off2, e2) in reads if start in lin(off2)[0]})
-                            if d[1] != 4 * nreads:
-                                problems.append(f'entry cursor `{name}` advances by {d[1]} after {nreads} entry read(s) (expected {4 * nreads})')
+                            # the cursor may be a byte offset (coefficient 1) or an element index scaled in the read (`4 * i`);
+                            # reads whose offsets differ only by a constant walk the same entry array
+                            coef = offl[0][start]
+
+                            def rest_of(o):
+                                lo = lin(o)
+                                return tuple(sorted((repr(a), c) for a, c in lo[0].items() if a != start))
+                            mine = rest_of(off)
+                            nreads = len({off2 for (E2, B2, off2, e2) in reads if start in lin(off2)[0] and lin(off2)[0][start] == coef and rest_of(off2) == mine})
+                            if coef * d[1] != 4 * nreads:
+                                problems.append(f'entry cursor `{name}` advances by {d[1]}' + (f' (scaled by {coef} in the read)' if coef != 1 else '') +
+                                                f' after {nreads} entry read(s) (expected {4 * nreads} bytes)')
                 # W-PAIR: an entry read on a continuing path must have its length consumed by exactly one payload cursor,
                 # unless no cursor of this walk is length-advanced at all (pure entry scans)
             if any(length_atoms(lin_sub(lin(end), lin(start)))[0] for (name, start, end) in deltas.values()) or True:
